@@ -193,3 +193,52 @@ def context_passes_every_binding_packet_on():
         check(st.got == [], "a packet that is not part of a handshake is not passed on")
     else:
         check(len(st.got) == 3 and st.got[0] is m1 and st.got[1] is m2 and st.got[2] is m3, "every handshake packet reaches the state, repeats too, in order")
+
+
+# ---- repeats that arrive before the waiter has run ---------------------------------------------------------------
+class FakePktOfPhase:
+    """A received binding packet that the real BindStateBase.is_phase files under the given phase (what real
+    frames it files where is decided by phases_agree / phases_are_exclusive); 'unrelated': under none."""
+
+    def __init__(self, phase):
+        self.phase = phase
+        self.src = "03:123456"
+        self.code = "10E0" if phase == B.BindPhase.RATIFY else ("30C9" if phase == "unrelated" else "1FC9")
+        self.verb = " W" if phase == B.BindPhase.ACCEPT else " I"
+        self.dst = self.src if phase == B.BindPhase.TENDER else "01:145038"
+
+    def __eq__(self, other):
+        return isinstance(other, FakePktOfPhase) and self.phase == other.phase
+
+
+class FakeMsgOfPhase:
+    def __init__(self, phase, name):
+        self._pkt = FakePktOfPhase(phase)
+        self.name = name
+
+
+RECEIVING = sorted({c.__name__ for c in vars(B).values() if isinstance(c, type) and issubclass(c, B.BindStateBase)
+                    and c.__name__.startswith(("Resp", "Supp")) and c not in B._IS_NOT_BINDING_STATES})  # the states a packet can reach
+
+
+@harness("C20", cases=[(n,) for n in RECEIVING])
+def repeats_before_the_waiter_runs_are_harmless(state_name):
+    """rcvd_msg of every concrete binding state, called again with a repeat of the frame (RF devices send each frame
+    three times; a serial read can hold all three, which are then dispatched back to back, before the coroutine
+    that awaits the state's future has run): no call raises, and the future keeps the FIRST message."""
+    cls = getattr(B, state_name)
+    ctx = FakeBindContext()
+    fut = FakeFuture()
+    phase = getattr(cls, "_expected_pkt_phase", None)
+    st = new_object(cls, _context=ctx, _loop=None, _fut=fut, _timer_handle=FakeHandle(), _next_ctx_state=NextState, _cmds_sent=1,
+                    _cmd=FakePktOfPhase(phase))
+    ctx.state = cls
+    first, repeat, other = FakeMsgOfPhase(phase, "first"), FakeMsgOfPhase(phase, "repeat"), FakeMsgOfPhase("unrelated", "other")
+    seq = sym_choice("arrive_back_to_back", ["first, repeat", "first, repeat, repeat", "other, first, repeat", "first, other, repeat"])
+    msgs = {"first": first, "repeat": repeat, "other": other}
+    for name in seq.split(", "):
+        o = outcome(st.rcvd_msg, msgs[name])
+        check(o.ok, "a frame that arrives before the waiter has run -- a repeat included -- is taken without an exception")
+    if fut.done():
+        cover("the state took a message")
+        check(And(fut.state == "result", fut.value is first), "the state's future holds the first matching message; repeats do not disturb it")
